@@ -92,6 +92,16 @@ class Check(PropCheck):
                 t2 = gen.rand_tree(rng, n, 'ones', p_multi=0.2, internal_names=0.0, names=names); kind = 'pair'
             if rng.random() < 0.3:
                 t2 = redraw_root(t2)
+            ru = rng.random()
+            if ru < 0.2 and kind == 'pair':
+                # unary nodes: one above the root of either tree (extra outer parentheses: the root then has ONE child, the node below it
+                # two), or somewhere inside
+                if rng.random() < 0.6:
+                    t2 = gen.T(children=[t2])
+                if rng.random() < 0.4:
+                    t1 = gen.T(children=[t1]); gen.assign_lengths(t1, rng, 'ones')
+                if rng.random() < 0.4:
+                    t2 = add_unary(t2, rng, rng.randint(1, 2))
             gen.assign_lengths(t2, rng, 'ones')
             cases.append(Case('r%d' % j, pair_ops(t1, t2, q0, q1), {'kind': kind}))
         # renaming: rf(t1,t2) = rf(sigma t1, sigma t2)
